@@ -333,6 +333,9 @@ def verify_function(lib, cls, fname, fnode, con, timeout_ms=10000, want_models=T
         ctx.args = args
         ctx.con = con
         ex = Exec(ctx)
+        prep = getattr(con, "prepare", None)
+        if prep:
+            prep(ex)
         body_state = entry.fork()
         for k, v in args.items():
             body_state.loc[k] = v
